@@ -212,3 +212,92 @@ async fn replay_f_c13b_embedded_eventual_read_is_served_under_the_servers_policy
         cfg.raft.read_consistency.default_policy
     );
 }
+
+// ---------------------------------------------------------------------------------------------
+// F-C23b  a key whose TTL ran out while the node was down keeps its value for ever after the restart:
+//         the File engine reloads the key from state.data, but TtlLease::reload drops registrations that are already
+//         expired, so no cleanup will ever remove it
+// ---------------------------------------------------------------------------------------------
+#[tokio::test]
+async fn replay_f_c23b_a_key_whose_ttl_ran_out_during_downtime_is_removed_after_restart_file_engine() {
+    use bytes::Bytes;
+    use d_engine_core::{ApplyEntry, Command, StateMachine};
+    let dir = tempfile::TempDir::new().unwrap();
+    {
+        let mut sm = crate::storage::FileStateMachine::new(dir.path().to_path_buf()).await.unwrap();
+        let lease = Arc::new(crate::storage::TtlLease::new(d_engine_core::config::LeaseConfig::default()));
+        sm.set_lease(lease.clone());
+        sm.start().await.unwrap();
+        let put = ApplyEntry {
+            index: 1,
+            term: 1,
+            command: Command::Insert { key: Bytes::from_static(b"k"), value: Bytes::from_static(b"short-lived"), ttl_secs: Some(1) },
+        };
+        sm.apply_chunk(&[put]).await.unwrap();
+        assert!(lease.get_expiration(b"k").is_some(), "the TTL put registers an expiry");
+        sm.stop().unwrap(); // graceful shutdown: persists ttl_state.bin next to state.data
+    }
+    tokio::time::sleep(std::time::Duration::from_millis(2200)).await; // the node is down while the TTL elapses
+    let mut sm = crate::storage::FileStateMachine::new(dir.path().to_path_buf()).await.unwrap();
+    let lease = Arc::new(crate::storage::TtlLease::new(d_engine_core::config::LeaseConfig::default()));
+    sm.set_lease(lease.clone());
+    sm.start().await.unwrap();
+    let removed = sm.lease_background_cleanup().await.unwrap();
+    let still_there = sm.get(b"k").unwrap();
+    assert!(
+        still_there.is_none(),
+        "put(k, ttl=1s), restart 2.2 s later, expiry cleanup ran (removed {removed:?}): k is still readable ({still_there:?}) and the reloaded lease knows no expiry for it ({:?}), so no later cleanup will remove it",
+        lease.get_expiration(b"k")
+    );
+}
+
+// ---------------------------------------------------------------------------------------------
+// F-C23c  an expired key survives every cleanup run as long as the ten lease entries that the cleanup samples first are
+//         not expired: lease_background_cleanup takes `may_have_expired_keys` (documented: "samples first 10 entries,
+//         may return false negatives") as a definitive "nothing to do"
+// ---------------------------------------------------------------------------------------------
+#[tokio::test]
+async fn replay_f_c23c_an_expired_key_is_removed_by_the_cleanup_whatever_the_other_keys_are_file_engine() {
+    use bytes::Bytes;
+    use d_engine_core::{ApplyEntry, Command, Lease, StateMachine};
+    let dir = tempfile::TempDir::new().unwrap();
+    let mut sm = crate::storage::FileStateMachine::new(dir.path().to_path_buf()).await.unwrap();
+    let lease = Arc::new(crate::storage::TtlLease::new(d_engine_core::config::LeaseConfig::default()));
+    sm.set_lease(lease.clone());
+    sm.start().await.unwrap();
+    // 64 keys that will not expire during the test
+    let mut chunk = Vec::new();
+    for i in 0..64u64 {
+        chunk.push(ApplyEntry {
+            index: i + 1,
+            term: 1,
+            command: Command::Insert { key: Bytes::from(format!("long-{i}")), value: Bytes::from_static(b"v"), ttl_secs: Some(3600) },
+        });
+    }
+    sm.apply_chunk(&chunk).await.unwrap();
+    // one short-lived key that is not among the entries the sampling looks at (the map's iteration order depends on the
+    // hasher, so the name is chosen by probing: a candidate the sampling would see is deleted again)
+    let later = std::time::SystemTime::now() + std::time::Duration::from_secs(5);
+    let mut index = 100u64;
+    let mut short: Option<Bytes> = None;
+    for c in 0..2000u32 {
+        let key = Bytes::from(format!("short-{c}"));
+        index += 1;
+        sm.apply_chunk(&[ApplyEntry { index, term: 1, command: Command::Insert { key: key.clone(), value: Bytes::from_static(b"s"), ttl_secs: Some(1) } }]).await.unwrap();
+        if !lease.may_have_expired_keys(later) {
+            short = Some(key);
+            break;
+        }
+        index += 1;
+        sm.apply_chunk(&[ApplyEntry { index, term: 1, command: Command::Delete { key } }]).await.unwrap();
+    }
+    let short = short.expect("with 64 other entries some candidate lies outside the ten sampled ones");
+    tokio::time::sleep(std::time::Duration::from_millis(2200)).await; // the short TTL (1 s) elapses
+    let removed = sm.lease_background_cleanup().await.unwrap();
+    let still_there = sm.get(&short).unwrap();
+    assert!(
+        still_there.is_none(),
+        "{short:?} was written with ttl=1s, 2.2 s passed and the expiry cleanup ran (removed {removed:?}), but it is still readable ({still_there:?}); its registered expiry is {:?}",
+        lease.get_expiration(&short)
+    );
+}
